@@ -120,6 +120,13 @@ def check_merge(ctx, fp, parts_arg, reassign, result):
     if got_q != [(0, lcm)]:
         ctx.violation("merged-divisions-not-lcm", f"merged part has divisions {got_q}, lcm is {lcm}", w)
         return
+    # the merged part is a part like any other: every time point carries the divisions in force (tie_notes, find_tuplets
+    # and the estimate of note values read them from there)
+    stale = [(int(tp.t), tp.quarter) for tp in result._points if tp.quarter != lcm]
+    ctx.check()
+    if stale:
+        ctx.violation("merged-time-points-carry-other-divisions", f"{len(stale)} of {len(result._points)} time points of the merged part carry "
+                      f"divisions {sorted({q_ for _, q_ in stale})}, the part's divisions are {lcm}", w)
     res_rows = element_rows(result)
     by_obj = {r["obj"]: r for r in res_rows}
     res_multiset = collections.Counter((r["cls"], r["start"], r["end"], r["key"]) for r in res_rows)
@@ -265,6 +272,18 @@ def run_item(ctx, item):
         # parts need not have distinct ids (the first parts of two separately loaded files are both "P1")
         parts[rng.randrange(1, len(parts))].id = parts[0].id
         ctx.extra["merges_with_a_later_part_named_like_the_first"] += 1
+    if rng.random() < 0.3:
+        # a crowded part: more voices than the four per staff that the automatic renumbering reserves
+        p = parts[rng.randrange(len(parts))]
+        notes = [n_ for n_ in timemaps.objects_of(p, S.Note, exact=True) if n_.tie_next is None and n_.tie_prev is None]
+        top = max([n_.voice for n_ in timemaps.objects_of(p, S.GenericNote, exact=False) if n_.voice] or [1])
+        if notes:
+            for v in range(top + 1, rng.randint(5, 7) + 1):
+                for j in range(rng.randint(1, 3)):
+                    n_ = rng.choice(notes)
+                    p.add(S.Note(rng.choice("CDEFGAB"), rng.randint(2, 5), id=f"{p.id}x{v}_{j}", voice=v, staff=n_.staff,
+                                 symbolic_duration=dict(n_.symbolic_duration) if n_.symbolic_duration else None), n_.start.t, n_.end.t)
+            ctx.extra["merges_with_a_part_of_more_than_four_voices_per_staff"] += 1
     hostile = rng.random()
     for p in parts:
         notes = timemaps.objects_of(p, S.GenericNote, exact=False)
